@@ -168,6 +168,7 @@ def run_history(S, case):
     JS.JobSubmitter._save_repository_info = lambda self, reg: None
     out = tempfile.mkdtemp(prefix="verif-rounds-")
     fails = []
+    restore = []
     try:
         n = case["n"]
         ns = [f"j{i}" for i in range(n)]
@@ -189,11 +190,29 @@ def run_history(S, case):
             sim.sbatch_error_calls = {fault[1]}
         crashed = False
         lost = 0
+        if fault and fault[0] == "status_timeout":
+            # the cluster lock cannot be acquired for the k-th status update (another process holds it too long): filelock.Timeout out of update_job_status
+            from filelock import Timeout as _LockTimeout
+            orig_ujs = Cluster.update_job_status
+            calls = {"n": 0}
+
+            def flaky_update(self, *a, **k):
+                calls["n"] += 1
+                if calls["n"] == fault[1]:
+                    raise _LockTimeout(self._lock_file)
+                return orig_ujs(self, *a, **k)
+            Cluster.update_job_status = flaky_update
+            restore.append(lambda: setattr(Cluster, "update_job_status", orig_ujs))
         with contextlib.redirect_stdout(io.StringIO()), contextlib.redirect_stderr(io.StringIO()):
             try:
                 JobSubmitter.run_submit_jobs(cfg, out)
             except OSError:
                 crashed = True
+            except Exception:  # noqa: BLE001
+                if fault and fault[0] == "status_timeout":
+                    crashed = True
+                else:
+                    raise
             steps = 0
             rounds = 0
             while steps < 60:
@@ -238,7 +257,9 @@ def run_history(S, case):
                 except OSError:
                     crashed = True
                 except Exception as e:      # the marker makes later rounds refuse: expected after a crash
-                    if not crashed:
+                    if fault and fault[0] == "status_timeout" and type(e).__name__ == "Timeout":
+                        crashed = True
+                    elif not crashed:
                         fails.append(f"round raised {type(e).__name__}: {e}")
                 if crashed and len(sim.sbatch) > nb and not os.path.exists(os.path.join(out, "submitter.lock")) and False:
                     pass
@@ -271,6 +292,8 @@ def run_history(S, case):
                 fails.append(f"C12: results {names} + missing {res['missing_jobs']} is not the configured job set")
         return {"pre_ok": True, "ok": not fails, "failed": fails[:4]}
     finally:
+        for r in restore:
+            r()
         SM.run_command, JS.JobSubmitter._save_repository_info = saved
         shutil.rmtree(out, ignore_errors=True)
 
@@ -281,7 +304,7 @@ def cases_history(tier, rng):
         yield {"seed": rng.randint(0, 10**9), "n": rng.randint(1, 7), "size": rng.choice([1, 2, 3]), "max_nodes": rng.choice([1, 2, None]),
                "try_add": rng.random() < 0.5, "fault": None}
     for _ in range(nfault):
-        kind = rng.choice(["sbatch_raise", "squeue", "sbatch_error", "lose"])
+        kind = rng.choice(["sbatch_raise", "squeue", "sbatch_error", "lose", "status_timeout"])
         yield {"seed": rng.randint(0, 10**9), "n": rng.randint(2, 6), "size": rng.choice([1, 2]), "max_nodes": rng.choice([1, 2, 3]),
                "try_add": rng.random() < 0.5, "fault": [kind, rng.randint(1, 3)]}
 
